@@ -156,7 +156,7 @@ func TestResponderRetransmits(t *testing.T) {
 		if err != nil {
 			t.Fatalf("NewInterceptor(size %d): %v", size, err)
 		}
-		defer func() { _ = ic.Close() }()
+		defer kit.BoundedClose(ic.Close)
 		rtcpSrc := &kit.ByteSource{}
 		rtcpReader := ic.BindRTCPReader(rtcpSrc)
 		nStreams := rapid.IntRange(1, 3).Draw(t, "streams")
